@@ -120,10 +120,34 @@ var c20Hist = core.Mon(c20, "history-replay", func(w *core.W, h *HistCase) {
 	}
 	for i, o := range h.Ops {
 		w.Eval(1)
+		// the host-facing operations must not panic either
+		if o.Op != "resolve" {
+			var opPanic interface{}
+			func() {
+				defer func() { opPanic = recover() }()
+				switch o.Op {
+				case "setthis":
+					if o.Map < 0 {
+						r.SetThis(nil)
+					} else {
+						r.SetThis(goMaps[o.Map])
+					}
+				case "setvalue":
+					r.SetThisValue(o.Key, mvGo(*o.Val))
+				case "set":
+					r.Set(o.Key, mvGo(*o.Val))
+				case "get":
+					_ = r.Get(o.Key)
+				}
+			}()
+			if opPanic != nil {
+				bad(i, "panic:"+o.Op, "no panic", fmt.Sprint(opPanic), "a runner operation panicked")
+				return
+			}
+		}
 		switch o.Op {
 		case "setthis":
 			if o.Map < 0 {
-				r.SetThis(nil)
 				cur = -2
 				w.Count("op:setthis-nil")
 			} else {
@@ -137,13 +161,11 @@ var c20Hist = core.Mon(c20, "history-replay", func(w *core.W, h *HistCase) {
 						}
 					}
 				}
-				r.SetThis(goMaps[o.Map])
 				cur = o.Map
 				w.Count("op:setthis")
 			}
 		case "setvalue":
 			w.Count("op:setvalue")
-			r.SetThisValue(o.Key, mvGo(*o.Val))
 			if cur == -2 {
 				created = map[string]MV{}
 				cur = -1
@@ -151,7 +173,6 @@ var c20Hist = core.Mon(c20, "history-replay", func(w *core.W, h *HistCase) {
 			curStore()[o.Key] = *o.Val
 		case "set":
 			w.Count("op:set")
-			r.Set(o.Key, mvGo(*o.Val))
 			aux[o.Key] = *o.Val
 		case "get":
 			w.Count("op:get")
